@@ -275,11 +275,10 @@ func tables(vs []any, texts []string) (tbl, ftab, pftab []byte) {
 	return
 }
 
-// rank of the Go type of nil, bool, number, string, list, sliced list, map
+// rank of the Go type of nil, bool, number, string, list, map (C08_Value.tag)
 // under vals.CmpTotal (the order of the type descriptors in this process)
 func typeRanks() []byte {
-	l := vals.MakeList("a", "b")
-	reps := []any{nil, true, 1, "s", vals.MakeList("a"), l.SubVector(0, 1), vals.MakeMap("k", "v")}
+	reps := []any{nil, true, 1, "s", vals.MakeList("a"), vals.MakeMap("k", "v")}
 	rk := make([]byte, len(reps))
 	for i, a := range reps {
 		for _, b := range reps {
@@ -332,12 +331,14 @@ func short(s string) string {
 // tieCollide: some map inside v has two keys that are not Equal, tie under
 // CmpTotal and have the same 32-bit Hash (computed from the input only).
 // ties: some map has two keys that tie under CmpTotal.
-func tieInfo(v any) (ties, collide bool) {
+// cyclic: some map holding a colliding tie also has three keys on which the
+// less function of reprMap (CmpTotal, ties broken by the key text) is cyclic.
+func tieInfo(v any) (ties, collide, cyclic bool) {
 	switch v := v.(type) {
 	case vals.List:
 		for it := v.Iterator(); it.HasElem(); it.Next() {
-			t, c := tieInfo(it.Elem())
-			ties, collide = ties || t, collide || c
+			t, c, y := tieInfo(it.Elem())
+			ties, collide, cyclic = ties || t, collide || c, cyclic || y
 		}
 	case vals.Map:
 		var keys []any
@@ -345,16 +346,41 @@ func tieInfo(v any) (ties, collide bool) {
 			k, x := it.Elem()
 			keys = append(keys, k)
 			for _, y := range []any{k, x} {
-				t, c := tieInfo(y)
-				ties, collide = ties || t, collide || c
+				t, c, z := tieInfo(y)
+				ties, collide, cyclic = ties || t, collide || c, cyclic || z
 			}
 		}
+		here := false
 		for i := range keys {
 			for j := i + 1; j < len(keys); j++ {
 				if vals.CmpTotal(keys[i], keys[j]) == vals.CmpEqual && !vals.Equal(keys[i], keys[j]) {
 					ties = true
 					if vals.Hash(keys[i]) == vals.Hash(keys[j]) {
-						collide = true
+						collide, here = true, true
+					}
+				}
+			}
+		}
+		if here && len(keys) <= 12 {
+			texts := make([]string, len(keys))
+			for i, k := range keys {
+				texts[i] = vals.ReprPlain(k)
+			}
+			lt := func(i, j int) bool {
+				switch vals.CmpTotal(keys[i], keys[j]) {
+				case vals.CmpLess:
+					return true
+				case vals.CmpEqual:
+					return texts[i] < texts[j]
+				}
+				return false
+			}
+			for a := range keys {
+				for b := range keys {
+					for c := range keys {
+						if lt(a, b) && lt(b, c) && lt(c, a) {
+							cyclic = true
+						}
 					}
 				}
 			}
@@ -452,9 +478,11 @@ func emit(c *reg.Ctx, via string, n *node, indent int) {
 	}
 	tbl, ftab, pftab := tables(all, texts)
 
-	ties, collide := tieInfo(v)
+	ties, collide, cyclic := tieInfo(v)
 	class := [...]string{"scalar", "scalar", "string", "number", "list", "map"}[n.k]
 	switch {
+	case cyclic:
+		class = "map-keys-cyclic-tie-and-hash-collide"
 	case collide:
 		class = "map-keys-tie-and-hash-collide"
 	case ties:
@@ -731,6 +759,18 @@ func run(c *reg.Ctx) {
 			emit(c, "tie", mp(p[0], str("x"), p[1], str("y")), ind)
 			emit(c, "tie", mp(p[1], str("y"), p[0], str("x")), ind)
 			emit(c, "tie", list(mp(str("z"), num(1), p[0], str("x"), str("a"), list(), p[1], mp())), ind)
+		}
+	}
+	// 2b. the cyclic triple: c and z exact, f inexact, both tie with f; c < f < z by
+	//     text, z < c by value; z and f collide in the hash (C04_cyclic_triple,
+	//     C04_planted_pairs_tie_and_collide).  Control: the same shape without
+	//     a hash collision.
+	for _, d := range []int{9007233084598712, 9007250264467764, 9007199254740996} {
+		cc, ff, zz := num(-(d - 1)), num(-float64(d)), num(-(d + 1))
+		for _, ind := range []int{math.MinInt, 0} {
+			emit(c, "cyclic", mp(cc, str("v"), zz, str("v"), ff, str("v")), ind)
+			emit(c, "cyclic", mp(cc, str("v"), ff, str("v"), zz, str("v")), ind)
+			emit(c, "cyclic", list(mp(str("a"), num(1), ff, list(), zz, mp(), cc, str("x"))), ind)
 		}
 	}
 	// 3. random values
